@@ -1126,6 +1126,12 @@ func gen(w *kit.Out, r *kit.Rand, tier string) {
 			w.Op("file %d %s", pickMode(rj, len(s)), kit.Hex(s))
 		}
 	}
+	if thorough {
+		// past maxNestLev (1e5): "exceeded max nesting depth" and the bailout path, both entry points
+		open := kit.Pick(rj, []string{"(", "[]", "*", "[", "{", "!"})
+		w.Op("file %d %s", uint(kit.Pick(rj, []uint{0, 4, 20, 32})), kit.Hex([]byte("package p\nvar _ = "+strings.Repeat(open, 100001))))
+		w.Op("expr 0 %s", kit.Hex([]byte(strings.Repeat(open, 100001))))
+	}
 }
 
 func main() {
